@@ -19,16 +19,18 @@ def run(tier, only=None):
     from .. import pselect
     from ..prun import Program, Src
 
-    krs, kinfo = kcollect.run("C09", tier, only, modules=["k_layers", "k_repart", "k_divisions"])
+    krs, kinfo = kcollect.run("C09", tier, only, modules=["k_layers", "k_repart", "k_divisions", "k_keys"])
     progs = f01.select(f01.all_programs(tier), "quick", seed() + 3, 150 if tier == "quick" else 2000) + f14.programs(tier) + f09.programs(tier)
     # graphs imported via from_map / from_delayed / from_graph and partition-filtered sources
     import dask_expr as dx
     for sname, src in pselect.sources(tier):
-        for text, tag in pselect.QUERIES[:9]:
+        for text, tag in pselect.QUERIES[:9] + [q for q in pselect.QUERIES if q[1].startswith(("window", "loc", "cumulative", "head", "tail"))]:
             if src.how == "array" and any(c in text for c in ("'b'", ".b", "fillna")):
                 continue
             progs.append(Program(text, [src], family="F11", note=tag, env_globals={"dx": dx}))
-            progs.append(Program(f"({text}).partitions[[1, 0]]", [src], family="F11", note=tag + "/filtered", env_globals={"dx": dx}))
+            progs.append(Program(f"({text}).partitions[[1, 0]]" if not tag.startswith(("head", "tail")) else f"({text}).partitions[[0]]", [src], family="F11", note=tag + "/filtered", env_globals={"dx": dx}))
+            # the same query over a partition-filtered input (selection first)
+            progs.append(Program(text.replace("X", "X.partitions[[1, 2]]"), [src], family="F11", note=tag + "/prefiltered", env_globals={"dx": dx}))
     results, info = pfam.run(progs, prun.check_graphs, only)
     results = krs + results
     info.update(kinfo)
